@@ -592,10 +592,20 @@ func (c20) Eval(c *Chooser, env *Env) *Outcome {
 	}
 	got := map[string]int{}
 	stdinOf := map[string]string{}
+	startFailedEmpty := map[string]bool{}
 	for _, inv := range k.Invocations {
 		key := InvKey(toolOf(inv.Argv), inv.Stdin)
 		got[key]++
 		stdinOf[key] = inv.Stdin
+		if inv.StartErr != 0 {
+			// a process that could not be started never read its stdin: when only a part of the script
+			// (or nothing) was in the pipe by then, there is nothing to compare
+			for _, e := range expect {
+				if e.Tool == toolOf(inv.Argv) && len(inv.Stdin) < len(e.Stdin) && strings.HasPrefix(e.Stdin, inv.Stdin) {
+					startFailedEmpty[key] = true
+				}
+			}
+		}
 	}
 	// the dialect passed to shellcheck is the effective shell of the step
 	wantShell := map[string]string{}
@@ -615,6 +625,9 @@ func (c20) Eval(c *Chooser, env *Env) *Outcome {
 		}
 	}
 	for key, n := range got {
+		if want[key] == 0 && startFailedEmpty[key] {
+			continue // a process that could not be started before anything was written to its stdin: nothing to compare
+		}
 		if want[key] == 0 {
 			o.V = &Violation{Oracle: "invocations", Class: "foreign-invocation",
 				Message: fmt.Sprintf("a tool was run %d time(s) with an input the property does not call for (wrong shell decision or wrong placeholder sanitising): %s stdin=%q", n, key[:strings.Index(key, ":")], stdinOf[key])}
